@@ -14,6 +14,8 @@ import (
 	"bytes"
 	"fmt"
 	"math/rand"
+	"os"
+	"runtime/metrics"
 	"sort"
 	"strings"
 	"sync"
@@ -21,6 +23,30 @@ import (
 	"time"
 	"unsafe"
 )
+
+// A seeded defect (or a future regression) can make one Allocate call acquire dozens of 1 GiB chunks; the generated
+// cases need well below 1 GiB.  A watchdog ends the process before the machine suffers; the driver then reports the
+// missing output.
+const vAllocMemLimit = 5 << 30
+
+var vAllocMemOnce sync.Once
+
+func vAllocMemWatch() {
+	vAllocMemOnce.Do(func() {
+		go func() {
+			s := []metrics.Sample{{Name: "/memory/classes/total:bytes"}}
+			for {
+				time.Sleep(10 * time.Millisecond)
+				metrics.Read(s)
+				if s[0].Value.Kind() == metrics.KindUint64 && s[0].Value.Uint64() > vAllocMemLimit {
+					fmt.Fprintf(os.Stderr, "verif: allocator harness exceeded its memory budget (%d bytes mapped)\n",
+						s[0].Value.Uint64())
+					os.Exit(3)
+				}
+			}
+		}()
+	})
+}
 
 type vAllocRec struct {
 	s    []byte
@@ -111,6 +137,17 @@ func vAllocPanicName(r interface{}) string {
 	return "panic other:" + strings.ReplaceAll(strings.ReplaceAll(msg, "\n", " "), " ", "_")
 }
 
+// number of ops of this process that did not come back: the first ones get a generous deadline (a loaded machine
+// must not produce a false "hang"), later ones a short one (a tree that really spins would otherwise take hours)
+var vAllocHangs int32
+
+func vAllocDeadline() time.Duration {
+	if atomic.LoadInt32(&vAllocHangs) < 2 {
+		return 20 * time.Second
+	}
+	return 2 * time.Second
+}
+
 // run f in its own goroutine; "hang" if it does not come back in time (the goroutine cannot be killed)
 func vAllocGuard(d time.Duration, f func() string) (string, bool) {
 	ch := make(chan string, 1)
@@ -126,12 +163,18 @@ func vAllocGuard(d time.Duration, f func() string) (string, bool) {
 	case r := <-ch:
 		return r, false
 	case <-time.After(d):
+		atomic.AddInt32(&vAllocHangs, 1)
 		return "hang", true
 	}
 }
 
 func init() {
 	verifComponents["alloc"] = func(args []string) func(op []string) string {
+		vAllocMemWatch()
+		if atomic.LoadInt32(&vAllocHangs) >= 3 {
+			// every hung op left a goroutine spinning; the first hangs are on record, do not pile up more
+			return func(op []string) string { return "skipped-after-hangs" }
+		}
 		a := NewAllocator(int(vu(args[0])), "verif")
 		var live []vAllocRec
 		nextID := 0
@@ -265,7 +308,7 @@ func init() {
 			if dead {
 				return "dead"
 			}
-			r, hung := vAllocGuard(2*time.Second, func() string { return do(op) })
+			r, hung := vAllocGuard(vAllocDeadline(), func() string { return do(op) })
 			if hung {
 				dead = true // the stuck goroutine still owns the allocator (and its mutex)
 			}
@@ -290,6 +333,7 @@ func init() {
 	}
 
 	verifComponents["allocstress"] = func(args []string) func(op []string) string {
+		vAllocMemWatch()
 		a := NewAllocator(int(vu(args[0])), "verif")
 		dead := false
 		return func(op []string) string {
@@ -308,7 +352,7 @@ func init() {
 				return "ok"
 			case "stress":
 				G, M, seed, maxsz := int(vu(op[1])), int(vu(op[2])), int64(vu(op[3])), int(vu(op[4]))
-				r, hung := vAllocGuard(240*time.Second, func() string { return vAllocStress(a, G, M, seed, maxsz) })
+				r, hung := vAllocGuard(90*time.Second, func() string { return vAllocStress(a, G, M, seed, maxsz) })
 				if hung {
 					dead = true
 				}
